@@ -165,10 +165,10 @@ Proof. vm_compute. reflexivity. Qed.
 Example fmt_830_4010_PS : map_fmt_wf map_regexes M_dataele.tree M_codes.tree M_830_4010_PS.tree = true.
 Proof. vm_compute. reflexivity. Qed.
 
-(* ---------------- FINDING 1: validation raises on the shipped map 830.4010.PS.xml ---------------- *)
-(* The map references data elements 347 (CTT02) and 367 (BFR10) that dataele.xml does not define
-   (known as a static defect: C16-830-undefined-refs-and-notes).  valid_wf is false on it, and a data
-   segment that fills one of these elements makes segment_if.is_valid raise EngineError. *)
+(* ---------------- 830.4010.PS.xml after the repair of dataele.xml ---------------- *)
+(* The map referred to data elements 347 (CTT02) and 367 (BFR10), which dataele.xml did not define:
+   valid_wf was false on it and a data segment filling one of these elements made segment_if.is_valid
+   raise EngineError (fixed in /repo: 274121a).  The examples below record the repaired behaviour. *)
 Definition cs (x : string) : str := list_ascii_of_string x.
 Definition d0 : delims := {| seg_term := "~"%char; ele_term := "*"%char; subele_term := ":"%char |}.
 
@@ -188,19 +188,19 @@ Definition seg_id_at (tree : xml) (r : nref) : option str :=
   | Raise _ => None
   end.
 
-Example not_wf_830_4010_PS : map_valid_wf map_regexes M_dataele.tree M_codes.tree M_830_4010_PS.tree = false.
+Example wf_830_4010_PS : map_valid_wf map_regexes M_dataele.tree M_codes.tree M_830_4010_PS.tree = true.
 Proof. vm_compute. reflexivity. Qed.
 
-Example raise_830_CTT :
+Example no_raise_830_CTT :
   seg_id_at M_830_4010_PS.tree [0; 1; 0; 2; 0] = Some (cs "CTT") /\
   (exists evs, validate_at M_830_4010_PS.tree [0; 1; 0; 2; 0] "CTT*1~" = Ok (true, evs)) /\
-  validate_at M_830_4010_PS.tree [0; 1; 0; 2; 0] "CTT*1*5~" = Raise EngineError.
-Proof. split; [vm_compute; reflexivity|]. split; [eexists; vm_compute; reflexivity|]. vm_compute. reflexivity. Qed.
+  (exists evs, validate_at M_830_4010_PS.tree [0; 1; 0; 2; 0] "CTT*1*5~" = Ok (true, evs)).
+Proof. split; [vm_compute; reflexivity|]. split; eexists; vm_compute; reflexivity. Qed.
 
-Example raise_830_BFR :
+Example no_raise_830_BFR :
   seg_id_at M_830_4010_PS.tree [0; 1; 0; 0; 0] = Some (cs "BFR") /\
-  validate_at M_830_4010_PS.tree [0; 1; 0; 0; 0] "BFR*00*X**DL*A*20240101**20240101**X~" = Raise EngineError.
-Proof. split; vm_compute; reflexivity. Qed.
+  exists b evs, validate_at M_830_4010_PS.tree [0; 1; 0; 0; 0] "BFR*00*X**DL*A*20240101**20240101**X~" = Ok (b, evs).
+Proof. split; [vm_compute; reflexivity|]. eexists. eexists. vm_compute. reflexivity. Qed.
 
 (* 841.4010.XXXC.xml does not load at all (known: C16-841-unloadable), so there is no map to validate against *)
 Example unloadable_841_4010_XXXC :
